@@ -395,6 +395,12 @@ pub fn remaining_file_content<'a>(input: &'a mut LineReader) -> Result<&'a str, 
         .is_some()
     {}
 
+    // The end of the data can also stem from a failed read, which must not pass for the end of the
+    // comment.
+    if let Err(err) = input.reader.check_io_error() {
+        return Err(err.into());
+    }
+
     let bytes = input.reader.buf();
 
     match (std::str::from_utf8(bytes), bytes.last()) {
